@@ -320,7 +320,7 @@ func c09b(c *Ctx, r *Report) {
 					flag = identObj(info, x.Lhs[0])
 					reset = true
 				}
-			case *ast.ForStmt:
+			case *ast.ForStmt, *ast.RangeStmt:
 				if full, body, idx := fullRangeLoop(info, x); full != nil && len(body.List) == 1 {
 					if as, ok := body.List[0].(*ast.AssignStmt); ok && identObj(info, as.Lhs[0]) == flag {
 						conj := flattenAnd(as.Rhs[0])
